@@ -176,6 +176,12 @@ package parse
 //@   maypanic
 //@   assert @store:F.sysl.Endpoint.Stmt [call-recorded-on-the-published-event] len(stored) > 0 ==> in(eventName, srcApp.Endpoints) && target == srcApp.Endpoints[eventName]
 
+// The field table of a (re)declared table or tuple is a new map or the field map of the existing relation / tuple of
+// that name — never the (nil) field map of some other kind of type (EnterField writes into it).
+//@ func (*TreeShapeListener).EnterTable
+//@   maypanic
+//@   assert @store:F.parse.TreeShapeListener.typemap [field-table-new-or-the-existing-one] fresh(stored) || (existing.GetRelation() != nil && stored == existing.GetRelation().AttrDefs) || (existing.GetTuple() != nil && stored == existing.GetTuple().AttrDefs)
+
 // At return the REST endpoint just (re)declared carries, as its current location and as the last entry of its
 // location list, the start of this method rule — whatever the verb.
 //@ func (*TreeShapeListener).EnterMethod_def
